@@ -14,3 +14,8 @@ def tb(a: int) -> int:
 def fired(x: int = 0) -> int:
     """Target of the trigger definitions registered by the trigger-store histories."""
     return x
+
+
+def tc(a: int, b: int) -> int:
+    """Two-argument task of the key-lookup part (vf/props/c16_keys.py)."""
+    return a + b
